@@ -123,7 +123,7 @@ class WriterExec:
             nm = _cname(e)
             if nm in INT_ENC or nm in ("int_to_byte", "encode_varint", "encode_varstr", "serialize_key_value", "bytes", "encode_num") or nm in HASHES:
                 return True
-            if isinstance(e.func, ast.Attribute) and nm in SER_METHODS:
+            if isinstance(e.func, ast.Attribute) and (nm in SER_METHODS or nm == "to_bytes"):
                 return True
             if nm in ("encode_base58_checksum",):
                 return False
@@ -204,6 +204,10 @@ class WriterExec:
             return [("varstr", self.sym(args[0], env))]
         if nm == "serialize_key_value" and len(args) == 2:
             return [("kv", self.sym(args[0], env), self.sym(args[1], env))]
+        if nm == "to_bytes" and isinstance(e.func, ast.Attribute) and len(args) == 2:
+            w = self.folder.fold(_Subst(env).visit(copy.deepcopy(args[0])))
+            order = self.folder.fold(args[1])
+            return [("int", w if isinstance(w, int) else canon(args[0], env), "BE" if order == "big" else "LE", canon(e.func.value, env))]
         if nm in HASHES:
             return [("hash", nm, [self.sym(a, env) for a in args][0] if len(args) == 1 else sum([self.sym(a, env) for a in args], []))]
         if isinstance(e.func, ast.Attribute) and isinstance(e.func.value, ast.Name) and e.func.value.id == "self" and not e.args and not e.keywords \
